@@ -69,7 +69,11 @@ class World:
         x, y, w, h, al = spec
         o = self.ev("Point(a, b)", "pycaption.geometry", a=self.size(x), b=self.size(y))
         e = self.ev("Stretch(a, b)", "pycaption.geometry", a=self.size(w), b=self.size(h)) if w is not None else None
-        a = self.ev(f"Alignment(HorizontalAlignmentEnum.{al[0]}, VerticalAlignmentEnum.{al[1]})", "pycaption.geometry") if al else None
+        a = None
+        if al:
+            h_ = f"HorizontalAlignmentEnum.{al[0]}" if al[0] else "None"
+            v_ = f"VerticalAlignmentEnum.{al[1]}" if al[1] else "None"
+            a = self.ev(f"Alignment({h_}, {v_})", "pycaption.geometry")
         return self.ev("Layout(origin=o, extent=e, alignment=a)", "pycaption.geometry", o=o, e=e, a=a)
 
     def nodes(self, items):
@@ -342,6 +346,11 @@ def caption_sets(thorough):
     yield "span with its own text-align and a layout", {"langs": {"en-US": [(S, 2 * S, [
         "plain ", ("L", L4), ("s", True, {"text-align": "center", "italics": True}), "centred",
         ("s", False, {"text-align": "center", "italics": True}), ("L", None), " end"], None, None)]}}
+    # alignments with one component only, and the logical start / end
+    yield "partial alignments", {"langs": {"en-US": [
+        (S, 2 * S, ["top only"], (10, 10, 80, 20, (None, "TOP")), None), (3 * S, 4 * S, ["centre only"], (10, 40, 80, 20, (None, "CENTER")), None),
+        (5 * S, 6 * S, ["left only"], (10, 70, 80, 20, ("LEFT", None)), None), (7 * S, 8 * S, ["end"], (10, 12, 80, 20, ("END", "BOTTOM")), None),
+        (9 * S, 10 * S, ["start"], (10, 14, 80, 20, ("START", "CENTER")), None)]}}
     # document styles, one named 'p'
     yield "document styles", {"langs": {"en-US": [(S, 2 * S, ["styled"], None, {"class": "emph"}),
                                                   (3 * S, 4 * S, ["plain"], None, None)]},
@@ -357,6 +366,10 @@ def expected_regions(layout_spec):
     out = {"tts:origin": f"{x}% {y}%"}
     if w is not None:
         out["tts:extent"] = f"{w}% {h}%"
+    if al and al[0]:
+        out["tts:textAlign"] = {"LEFT": "left", "CENTER": "center", "RIGHT": "right", "START": "start", "END": "end"}[al[0]]
+    if al and al[1]:
+        out["tts:displayAlign"] = {"TOP": "before", "CENTER": "center", "BOTTOM": "after"}[al[1]]
     return out
 
 
@@ -443,6 +456,11 @@ def explore(ctx, thorough):
                 if plain is not None and [[(p_["begin"], p_["end"], p_["lines"]) for p_ in ps] for _, _, ps in iparsed["langs"]] != \
                         [[(p_["begin"], p_["end"], p_["lines"]) for p_ in ps] for _, _, ps in plain["langs"]]:
                     bad["structure"].append(dict(case, options=oname, why="the cues differ from those written without the options"))
+                elif plain is not None and [[p_["italic"] for p_ in ps] for _, _, ps in iparsed["langs"]] != \
+                        [[p_["italic"] for p_ in ps] for _, _, ps in plain["langs"]]:
+                    bad["italics"].append(dict(case, options=oname, why="the italic characters differ from those written without the options",
+                                               italic=[[p_["italic"] for p_ in ps] for _, _, ps in iparsed["langs"]],
+                                               without=[[p_["italic"] for p_ in ps] for _, _, ps in plain["langs"]]))
         # ---------------- the other DFXP writers (one p per run of concurrent captions)
         for wname in ("SinglePositioningDFXPWriter", "LegacyDFXPWriter"):
             try:
@@ -582,7 +600,8 @@ def _judge_dfxp(spec, parsed, doc, case, bad):
                             bad["layout"].append(dict(case, cue=k + 1, character=c, region=reg, required="the default region"))
                             break
                         continue
-                    wrong = {a: reg.get(a) for a, v in exp.items() if reg.get(a) is None or _pct(reg[a]) != _pct(v)}
+                    wrong = {a: reg.get(a) for a, v in exp.items()
+                             if reg.get(a) is None or (_pct(reg[a]) != _pct(v) if "%" in v else reg[a] != v)}
                     if wrong:
                         bad["layout"].append(dict(case, cue=k + 1, character=c, region_id=rid, region=reg, required=exp))
                         break
